@@ -74,7 +74,7 @@ fn pos_class(pos: &str) -> String {
 fn root_cause(variant: &str, pert: &str, pos: &str) -> String {
     let pc = pos_class(pos);
     let stat = pc.ends_with("@static");
-    if pert == "mixed-array" { return format!("{}:any-typed-value", variant); }
+    if pert == "mixed-array" { return format!("{}:any-typed-value,any-typed-value", variant); }
     if ["setfn-scalar", "setfn-string", "setfn-mixed"].contains(&pert) { return format!("{}:set-function-of-non-iterable", variant); }
     if ["block-as-value", "scoped-as-value", "avg-as-value", "abs-as-value", "logic-block-as-value"].contains(&pert) && stat { return format!("{}:aggregate-in-compile-time-position", variant); }
     if UNDECLARED_FAMILY.contains(&pert) { return format!("{}:reference-to-undeclared-family", variant); }
@@ -140,13 +140,20 @@ pub fn pool() -> Vec<(&'static str, &'static str, bool)> {
         ("neg-string", "-pS", false), ("array-plus-int", "pArr + 1", false), ("string-concat", "pS + pS", false), ("div-zero", "1 / 0", false), ("bool-times-bool", "pB * pB", false),
         ("overflow", "9223372036854775807 + 1", false), ("not-bool", "!pB", false), ("neg-bool", "-pB", false), ("tuple-plus", "pt + 1", true), ("node-plus", "pn + 1", true),
         ("infinity", "Infinity", false), ("underscore", "_", false),
+        // a matrix whose rows have different element kinds (well-typed row first): every element is `Any`, a numeric use of
+        // an element of a later row must be rejected; set functions over iterables of DIFFERENT element kinds likewise
+        ("mixed-rows-element", "pMix[1][0]", false), ("mixed-rows-first", "pMix[0][0]", false), ("mixed-rows-sum", "sum(q8 in pMix, q7 in q8) { q7 }", false),
+        ("mixed-rows-literal-sum", "sum(q8 in [[1, 2], [\"a\", \"b\"]], q7 in q8) { q7 }", false), ("mixed-depth-sum", "sum(q8 in [[1, 2], [[3], [4]]], q7 in q8) { q7 }", false),
+        ("union-mixed-sum", "sum(q8 in union(pArr, pSs)) { q8 }", false), ("union-mixed-sum-literal", "sum(q8 in union([1, 2], [\"a\"])) { q8 }", false),
+        ("union-mixed-len", "len(union(pArr, pSs))", false), ("difference-mixed-sum", "sum(q8 in difference(pArr, pSs)) { q8 }", false),
+        ("union-edges-destructure", "sum((q6, q7, q8) in union(edges(pG), pArr)) { q8 }", false),
         // compound variables of a family that is declared nowhere (wrong base name / wrong number of indexes), NON-literal index
         ("undeclared-family-var", "nofam_pi0", true), ("undeclared-family-expr", "nofam_{pi0 + 1}", true), ("undeclared-family-mixed", "nofam_1_pi0", true),
         ("wrong-arity-family-more", "pw_pi0_pi0", true), ("wrong-arity-family-less", "pu_pn", true), ("wrong-arity-family-expr", "pb_{pi0 + 1}_1", true),
     ]
 }
 
-const EXTRA_CONSTS: [(&str, &str); 8] = [("pS", "\"s\""), ("pB", "true"), ("pArr", "[4, 5, 6]"), ("pMat", "[[1, 2], [3]]"), ("pG", "Graph { A -> [B: 2, C], B -> [C], C }"),
+const EXTRA_CONSTS: [(&str, &str); 9] = [("pMix", "[[1, 2], [\"a\", \"b\"]]"), ("pS", "\"s\""), ("pB", "true"), ("pArr", "[4, 5, 6]"), ("pMat", "[[1, 2], [3]]"), ("pG", "Graph { A -> [B: 2, C], B -> [C], C }"),
     ("pF", "1.5"), ("pSs", "[\"a\", \"b\"]"), ("pN", "3")];
 
 /// hand-written templates: every builtin in every argument position, nested scopes, destructuring.
@@ -358,7 +365,9 @@ fn gen_lit(r: &mut Rng, k: &LK) -> LV {
         LK::Bool => LV::B(r.chance(1, 2)), LK::Str => LV::S(r.pick(&["a", "b", "cd"]).to_string()),
         LK::ArrNum => { let fl = r.chance(1, 4); LV::Arr((0..r.below(4)).map(|_| if fl { LV::F(r.range(0, 9) as f64 / 2.0) } else { LV::I(r.range(0, 6)) }).collect()) }
         LK::ArrStr => LV::Arr((0..1 + r.below(3)).map(|_| LV::S(r.pick(&["a", "b"]).to_string())).collect()),
-        LK::Mat => LV::Arr((0..1 + r.below(3)).map(|_| LV::Arr((0..1 + r.below(3)).map(|_| LV::I(r.range(0, 6))).collect())).collect()),
+        // now and then rows of different element kinds, the well-typed row first (`Any[]`: every numeric use must be rejected)
+        LK::Mat => if r.chance(1, 9) { LV::Arr(vec![LV::Arr(vec![LV::I(r.range(0, 6)), LV::I(r.range(0, 6))]), if r.chance(1, 2) { LV::Arr(vec![LV::S("a".into()), LV::S("b".into())]) } else { LV::Arr(vec![LV::Arr(vec![LV::I(3)]), LV::Arr(vec![LV::I(4)])]) }]) }
+            else { LV::Arr((0..1 + r.below(3)).map(|_| LV::Arr((0..1 + r.below(3)).map(|_| LV::I(r.range(0, 6))).collect())).collect()) },
         LK::EnumNum | LK::EnumStr | LK::EnumRows => LV::Arr(vec![]),
         LK::Other => match r.below(3) { 0 => LV::Arr(vec![LV::I(1), LV::S("a".into())]), 1 => LV::Arr(vec![]), _ => LV::Arr(vec![LV::Arr(vec![LV::I(1)]), LV::Arr(vec![LV::S("a".into())])]) },
     }
@@ -621,14 +630,15 @@ fn scopes_case(lets: &[(String, LE)], decls: &[LDecl], fors: &[LFor]) -> Case {
             }
             Err(e) => format!("(err {})", class_of(&e)),
         };
-        Ok::<_, String>((names, tc, tr))
+        let static_any = pre.create_token_type_map(&vec![], &IndexMap::new()).iter().any(|(_, tok)| serde_json::to_string(tok).map(|t| t.contains("\"Any\"")).unwrap_or(false));
+        Ok::<_, String>((names, tc, tr, static_any))
     }));
     let mut c = Case::default();
     c.tags = vec!["stream:scopes".into()];
-    let (names, tc, tr) = match res {
+    let (names, tc, tr, static_any) = match res {
         Ok(Ok(x)) => x,
         Ok(Err(e)) => { c.tags.push("scopes-parse-error".into()); c.show = format!("{}\n{}", src, e); return c; }
-        Err(_) => (lets.iter().map(|l| l.0.clone()).collect(), "(panic)".into(), "(panic)".into()),
+        Err(_) => (lets.iter().map(|l| l.0.clone()).collect(), "(panic)".into(), "(panic)".into(), false),
     };
     let it_sx = |it: &LIt| format!("(it ({}) {} {})", it.vars.iter().map(|v| sx::q(v)).collect::<Vec<_>>().join(" "), if it.tuple { "tuple" } else { "single" }, le_sx(&it.over));
     let its_sx = |its: &Vec<LIt>| its.iter().map(|i| format!(" {}", it_sx(i))).collect::<String>();
@@ -653,8 +663,8 @@ fn scopes_case(lets: &[(String, LE)], decls: &[LDecl], fors: &[LFor]) -> Case {
     c.nontrivial = tc == "(ok)";
     if tc == "(ok)" && TYPE_CLASS.contains(&trv.as_str()) {
         let v = run_program(&src);
-        let any = src.contains("[]") || src.contains("[1, \"a\"]") || src.contains("[[1], [\"a\"]]");
-        c.sig = Some(if v.applicable == Some(true) { format!("{}:operator-applicable", trv) } else if any { format!("{}:any-typed-value", trv) } else { format!("{}:scopes", trv) });
+        let any = static_any;
+        c.sig = Some(if v.applicable == Some(true) { format!("{}:operator-applicable", trv) } else if any { format!("{}:any-typed-value,any-typed-value", trv) } else { format!("{}:scopes", trv) });
         c.oracle = format!("sound ok {} {}", trv, match v.applicable { Some(true) => "applicable", Some(false) => "inapplicable", None => "na" });
         c.impl_violation = Some(format!("declarations / quantified constraints are accepted by the type checker and fail at transform with {}", trv));
     }
@@ -715,11 +725,13 @@ fn lets_case(lets: &[(String, LE)]) -> Case {
                 kinds.push((start, id.to_string(), kind_from_json(v.get("value").unwrap_or(&serde_json::Value::Null))));
             }
         }
+        // does the checker give some token the kind `Any` (known finding C19-any-escape applies only then)
+        let static_any = map.iter().any(|(_, tok)| serde_json::to_string(tok).map(|t| t.contains("\"Any\"")).unwrap_or(false));
         let tr = match pre.clone().transform(vec![], &IndexMap::new()) { Ok(_) => "ok".to_string(), Err(e) => format!("(err {})", class_of(&e)) };
-        Ok::<_, String>((names, tc, kinds, tr))
+        Ok::<_, String>((names, tc, kinds, tr, static_any))
     }));
     let underscore = lets.iter().any(|l| l.0 == "_");
-    let (names, tc, kinds, tr) = match res {
+    let (names, tc, kinds, tr, static_any) = match res {
         Ok(Ok(x)) => x,
         Ok(Err(e)) => {
             let mut c = Case::default();
@@ -731,7 +743,7 @@ fn lets_case(lets: &[(String, LE)]) -> Case {
             }
             return c;
         }
-        Err(_) => (vec![], "(panic)".into(), vec![], "(panic)".into()),
+        Err(_) => (vec![], "(panic)".into(), vec![], "(panic)".into(), false),
     };
     // the kind recorded at the position of every constant's name, in source order
     let kind_list: Vec<String> = names.iter().map(|(name, pos)| kinds.iter().find(|k| k.0 == *pos && &k.1 == name).map(|k| k.2.clone()).unwrap_or_else(|| "?".into())).collect();
@@ -765,8 +777,8 @@ fn lets_case(lets: &[(String, LE)]) -> Case {
     let trv = tr.trim_start_matches("(err ").trim_end_matches(')');
     if tc == "(ok)" && TYPE_CLASS.contains(&trv) {
         let v = run_program(&src);
-        let any = kind_list.iter().any(|k| k.contains("any")) || src.contains("[]") || src.contains("[1, \"a\"]") || src.contains("[[1], [\"a\"]]");
-        c.sig = Some(if v.applicable == Some(true) { format!("{}:operator-applicable", trv) } else if any { format!("{}:any-typed-value", trv) } else { format!("{}:where-section", trv) });
+        let any = static_any || kind_list.iter().any(|k| k.contains("any"));
+        c.sig = Some(if v.applicable == Some(true) { format!("{}:operator-applicable", trv) } else if any { format!("{}:any-typed-value,any-typed-value", trv) } else { format!("{}:where-section", trv) });
         c.oracle = format!("sound ok {} {}", trv, match v.applicable { Some(true) => "applicable", Some(false) => "inapplicable", None => "na" });
         c.impl_violation = Some(format!("the where section is accepted by the type checker and fails at transform with {}", trv));
     }
